@@ -16,6 +16,9 @@ package main
 // (Tail > 0: n > 0 and the error in ONE call — a reply completed by those bytes has been received).
 // Cases run sequentially in child processes so that the goroutine table after Close belongs to one case only,
 // and a panic (“send on closed channel”, …) is observed as the child's exit.
+// Two more families: "flood" (c04_atclose.go: what holds at the moment Close returns, with thousands of calls in
+// flight) and "xfer-loss" (c04_xferloss.go: the connection is lost in the middle of concurrent multi-chunk transfers
+// whose windows are full, and multi-chunk transfers are started on the dead connection).
 
 import (
 	"encoding/json"
@@ -63,8 +66,21 @@ type c04Case struct {
 	// bytes before the cut (at most the part of the frame the cut falls into or ends) are returned by the very Read
 	// call that returns the terminal error (n > 0 together with io.EOF resp. the error value), as io.Reader allows;
 	// 0: the historical behaviour, the error comes from a Read call of its own.
-	Tail int    `json:"tail,omitempty"`
-	Opt  string `json:"opt,omitempty"` // option variant (cli_ops.go: which MaxPacket constructor, UseFstat, UseConcurrentReads/Writes, MaxConcurrentRequestsPerFile); "" = MaxPacketUnchecked + the operation's own options
+	Tail int `json:"tail,omitempty"`
+	// Op "xfer-loss" (c04_xferloss.go): the transfers Xfers run in parallel under MaxConcurrentRequestsPerFile Req (0: the
+	// package's default); the peer answers the first Answer requests of each and the connection ends (Fault cut | err |
+	// failinput | close | cut+close | err+close) when At requests of each are on the wire unanswered, after Burst of them
+	// were answered in one write (BurstKind fail | ok | mixed); GOMAXPROCS Procs, Trials independent trials.
+	Xfers     []c04Xfer `json:"xfers,omitempty"`
+	Req       int       `json:"req,omitempty"`
+	Answer    int       `json:"answer,omitempty"`
+	Burst     int       `json:"burst,omitempty"`
+	BurstKind string    `json:"burst_kind,omitempty"`
+	BudgetMs  int       `json:"budget_ms,omitempty"` // the trials stop after this long (0: all Trials)
+	Par       int       `json:"par,omitempty"`       // trials run at the same time in the case's process, each with its own Client (0: one)
+	AfterPar  int       `json:"after_par,omitempty"` // callers that run those transfers at the same time, each on a File of its own (0: one)
+	After     int       `json:"after,omitempty"`     // multi-chunk transfers started after the loss, per trial (at least one of each kind)
+	Opt       string    `json:"opt,omitempty"`       // option variant (cli_ops.go: which MaxPacket constructor, UseFstat, UseConcurrentReads/Writes, MaxConcurrentRequestsPerFile); "" = MaxPacketUnchecked + the operation's own options
 }
 
 type c04Call struct {
@@ -87,7 +103,8 @@ type c04Res struct {
 	RacerOK  int       `json:"racer_ok"`
 	RacerErr int       `json:"racer_err"`
 	Trace    []string  `json:"trace,omitempty"`
-	Conn     *connLine `json:"conn,omitempty"` // the recorded schedule as conn.run tokens + observed outcomes
+	Conn     *connLine `json:"conn,omitempty"`       // the recorded schedule as conn.run tokens + observed outcomes
+	Trials   int       `json:"trials_run,omitempty"` // xfer-loss: trials that fitted into the case's time allowance
 	Fails    []c20Fail `json:"fails,omitempty"`
 	ExitNow  bool      `json:"-"`
 }
@@ -111,6 +128,10 @@ func c04Child(idx int, raw json.RawMessage) (any, bool) {
 	}
 	if cs.Op == c04FloodOp {
 		res := c04RunAtClose(cs)
+		return res, res.ExitNow
+	}
+	if cs.Op == c04XferOp {
+		res := c04RunXferLoss(cs)
 		return res, res.ExitNow
 	}
 	res := c04Run(cs, true)
@@ -759,7 +780,7 @@ func c04Run(cs c04Case, checkGoroutines bool) (res c04Res) {
 func checkC04(c *lib.Ctx) {
 	r := c.R
 	thorough := c.Tier == "thorough"
-	r.Rule = "scenario = [open] + one operation + [File.Close] on a real Client against a fake server, with 0…8 racing goroutines that keep starting Stat/Lstat/ReadLink/RealPath/Mkdir on the same Client. Operations: cmd/vh/cli_ops.go (single calls; ReadDir; single-chunk, sequential and concurrent multi-chunk ReadAt/WriteTo/WriteAt/Write/ReadFrom incl. readers with Len/Size/Stat/*io.LimitedReader and ReadFromWithConcurrency 0/2/1000; ReadDir/ReadDirContext over several READDIR batches, Walk, Glob, RemoveAll and MkdirAll over a two-level tree). Option variants: every operation under MaxPacketUnchecked (default), MaxPacketChecked, the MaxPacket alias and UseFstat(true); the transfers also under their own variants (UseFstat on/off, UseConcurrentReads false/true, UseConcurrentWrites true/false, MaxConcurrentRequestsPerFile 1/2 and combinations: the table Vars in cli_ops.go) — quick: default variant at full density, own variants at frame boundaries −1/0/+1, universal variants at frame boundaries; thorough: default and own variants at every byte offset, universal variants at the quick density; the fault-free run of every variant must return the same results as the default one. Family ssh: the same scenarios on a Client made by sftp.NewClient over an in-process x/crypto/ssh connection (loopback TCP; session stdin as writer, stderr copier with and without CopyStderrTo, Wait asking the session): the server sends exit-status 0 / 3 / none and closes the channel after N reply bytes, the TCP connection is dropped after N reply bytes, or the channel is closed after k requests; 9 operations (thorough: all). Faults: reply stream ended by EOF (cut) or by a Read error (err) after N bytes — thorough: every N in 0…len(stream); quick: every frame boundary −1/0/+1 and PRNG offsets —; client→server stream closed by the peer after k requests (failinput), every k; the client's k-th Write call and every later one fail while the reply stream stays alive (failwrite), every k (header and payload writes are separate calls). ERROR VALUES of the failing Read/Write: the table cliErrKinds (opaque sentinel and type, io.EOF, %w-wrapped / doubly wrapped / *net.OpError-wrapped / Is-method / errors.Join'ed EOF, io.ErrUnexpectedEOF plain and wrapped, io.ErrClosedPipe, os.ErrClosed in *os.PathError, net.ErrClosed, os.ErrDeadlineExceeded plain and in *net.OpError, EPIPE / ECONNRESET in *net.OpError, bare EPIPE): failinput and failwrite × every k × every value (quick, single-request operations: one value per family + 2 rotating); err × every offset × one rotating value plus every value at 4 offsets (thorough: every offset × every value). READ BEHAVIOUR of the transport at the moment of failure (pipes; cli_faultpeer.go faultReader): the terminal error comes from a Read call of its own (all of the above), or TOGETHER WITH THE LAST BYTES in one Read call (n > 0 and io.EOF resp. the error value, as io.Reader allows): at every reply boundary — the reply that ends there has been received completely, its caller gets it — with 1, 2, 3, 5 bytes, the body, the frame less one byte, or the whole frame including its length word arriving with the error (quick, default variant: EOF × 3 lengths, error × 3 lengths × rotating values, every value at one PRNG boundary × 2 lengths; other variants: one or two rotating; thorough: every boundary × every value × {1, body, frame}, every offset × 3), and one byte before / one and five bytes after every boundary (a partial frame whose last bytes come with the error). With racers: PRNG offsets, values and seeds (one in three with the last 1…9 bytes in the same Read as the error). Oracles: a call with a request whose reply was not delivered completely, or that could not be written, returns a non-nil error (never a truncated success; Glob, which documents that it swallows I/O errors, exempt); a call whose replies were all delivered returns the result of the fault-free run; Stat, ReadDir, File.ReadAt, File.WriteAt started after the fault fail; nothing hangs (20 s); Wait and Close return; the goroutine table is polled ≤ 5 s for goroutines created by pkg/sftp. Family flood (c04_atclose.go) — what holds AT THE MOMENT Client.Close RETURNS: N single-request calls (Stat/Lstat/ReadLink/RealPath/Mkdir) in flight on N goroutines (quick: 300, 2000, 20000; thorough: 100 … 5000, 8000, 20000), none answered, two goroutines in Client.Wait, 0…8 racers whose calls are answered; the connection ends by Client.Close (the peer ends its output when its input ends), or by the peer ending the reply stream (EOF / a Read error value of the table) with Client.Close called within 0…120 µs of it, either order; under GOMAXPROCS 1, 2, 4, 8 (thorough: also 3, 16); 2…40 independent trials per case. Right after Close has returned one goroutine dump (stop-the-world: a consistent picture) is taken: no goroutine started by pkg/sftp may still execute package code (one that has only its entry function left is exiting), nobody may still be parked in Wait, no call may still be parked waiting for its result; then, without any further event, Wait and every outstanding call return (the calls with an error), a later call fails, the goroutine table is free of pkg/sftp. Non-trivial = fault injected; distinct by (operation, fault, offset, error value, racers, seed, GOMAXPROCS)."
+	r.Rule = "scenario = [open] + one operation + [File.Close] on a real Client against a fake server, with 0…8 racing goroutines that keep starting Stat/Lstat/ReadLink/RealPath/Mkdir on the same Client. Operations: cmd/vh/cli_ops.go (single calls; ReadDir; single-chunk, sequential and concurrent multi-chunk ReadAt/WriteTo/WriteAt/Write/ReadFrom incl. readers with Len/Size/Stat/*io.LimitedReader and ReadFromWithConcurrency 0/2/1000; ReadDir/ReadDirContext over several READDIR batches, Walk, Glob, RemoveAll and MkdirAll over a two-level tree). Option variants: every operation under MaxPacketUnchecked (default), MaxPacketChecked, the MaxPacket alias and UseFstat(true); the transfers also under their own variants (UseFstat on/off, UseConcurrentReads false/true, UseConcurrentWrites true/false, MaxConcurrentRequestsPerFile 1/2 and combinations: the table Vars in cli_ops.go) — quick: default variant at full density, own variants at frame boundaries −1/0/+1, universal variants at frame boundaries; thorough: default and own variants at every byte offset, universal variants at the quick density; the fault-free run of every variant must return the same results as the default one. Family ssh: the same scenarios on a Client made by sftp.NewClient over an in-process x/crypto/ssh connection (loopback TCP; session stdin as writer, stderr copier with and without CopyStderrTo, Wait asking the session): the server sends exit-status 0 / 3 / none and closes the channel after N reply bytes, the TCP connection is dropped after N reply bytes, or the channel is closed after k requests; 9 operations (thorough: all). Faults: reply stream ended by EOF (cut) or by a Read error (err) after N bytes — thorough: every N in 0…len(stream); quick: every frame boundary −1/0/+1 and PRNG offsets —; client→server stream closed by the peer after k requests (failinput), every k; the client's k-th Write call and every later one fail while the reply stream stays alive (failwrite), every k (header and payload writes are separate calls). ERROR VALUES of the failing Read/Write: the table cliErrKinds (opaque sentinel and type, io.EOF, %w-wrapped / doubly wrapped / *net.OpError-wrapped / Is-method / errors.Join'ed EOF, io.ErrUnexpectedEOF plain and wrapped, io.ErrClosedPipe, os.ErrClosed in *os.PathError, net.ErrClosed, os.ErrDeadlineExceeded plain and in *net.OpError, EPIPE / ECONNRESET in *net.OpError, bare EPIPE): failinput and failwrite × every k × every value (quick, single-request operations: one value per family + 2 rotating); err × every offset × one rotating value plus every value at 4 offsets (thorough: every offset × every value). READ BEHAVIOUR of the transport at the moment of failure (pipes; cli_faultpeer.go faultReader): the terminal error comes from a Read call of its own (all of the above), or TOGETHER WITH THE LAST BYTES in one Read call (n > 0 and io.EOF resp. the error value, as io.Reader allows): at every reply boundary — the reply that ends there has been received completely, its caller gets it — with 1, 2, 3, 5 bytes, the body, the frame less one byte, or the whole frame including its length word arriving with the error (quick, default variant: EOF × 3 lengths, error × 3 lengths × rotating values, every value at one PRNG boundary × 2 lengths; other variants: one or two rotating; thorough: every boundary × every value × {1, body, frame}, every offset × 3), and one byte before / one and five bytes after every boundary (a partial frame whose last bytes come with the error). With racers: PRNG offsets, values and seeds (one in three with the last 1…9 bytes in the same Read as the error). Oracles: a call with a request whose reply was not delivered completely, or that could not be written, returns a non-nil error (never a truncated success; Glob, which documents that it swallows I/O errors, exempt); a call whose replies were all delivered returns the result of the fault-free run; Stat, ReadDir, File.ReadAt, File.WriteAt started after the fault fail; nothing hangs (20 s); Wait and Close return; the goroutine table is polled ≤ 5 s for goroutines created by pkg/sftp. Family flood (c04_atclose.go) — what holds AT THE MOMENT Client.Close RETURNS: N single-request calls (Stat/Lstat/ReadLink/RealPath/Mkdir) in flight on N goroutines (quick: 300, 2000, 20000; thorough: 100 … 5000, 8000, 20000), none answered, two goroutines in Client.Wait, 0…8 racers whose calls are answered; the connection ends by Client.Close (the peer ends its output when its input ends), or by the peer ending the reply stream (EOF / a Read error value of the table) with Client.Close called within 0…120 µs of it, either order; under GOMAXPROCS 1, 2, 4, 8 (thorough: also 3, 16); 2…40 independent trials per case. Right after Close has returned one goroutine dump (stop-the-world: a consistent picture) is taken: no goroutine started by pkg/sftp may still execute package code (one that has only its entry function left is exiting), nobody may still be parked in Wait, no call may still be parked waiting for its result; then, without any further event, Wait and every outstanding call return (the calls with an error), a later call fails, the goroutine table is free of pkg/sftp. Family xfer-loss (c04_xferloss.go) — the connection is lost in the MIDDLE of concurrent multi-chunk transfers: 1…3 transfers in parallel on one Client, each on its own File (File.ReadFrom with concurrent writes fed by readers with Len / Size / a negative Size, File.ReadFromWithConcurrency with argument 0 / window / 1000 / half the window, File.WriteTo, File.ReadAt, File.Read, File.WriteAt, File.Write; 5…307 chunks; MaxConcurrentRequestsPerFile default, 2, 3, 16, 128; option variants mp-checked, mp-alias, fstat); the peer answers the first 0…k requests of each and then keeps quiet until 2…128 requests of EACH transfer are on the wire unanswered (their workers parked); then optionally a burst — 2…window of the unanswered requests answered in ONE write with error statuses, valid replies or both alternating — and 0…150 µs later the connection ends: reply stream EOF, a Read error value of the table, the request stream failed by the peer with a Write error value, Client.Close called with the transfers in flight, or the end of the reply stream and Client.Close within 0…120 µs of each other in either order; 0…2 racers with answered calls; under GOMAXPROCS 2, 4, 8 (1 as control; thorough also 3, 16). After the loss, 9…64 multi-chunk transfers of every kind (2…130 chunks) are STARTED on the dead connection by 1…8 callers at the same time, each on a File of its own (every chunk fails at once; several workers of one transfer handle errors at the same moment). A case is as many independent trials (fresh Client; 1, 2, 4 or 8 trials at a time in the process) as fit into its time allowance (quick 350 ms, thorough 2 s; stops at the first failing trial), in a child process, a few cases at a time with nothing else running beside them (two workers of one transfer must really run at the same moment); a panic in a package goroutine is the death of the child, reported as “call did not return an error: process crashed” with the panic text and its site. Oracles: every transfer returns (20 s, hang budget) with a non-nil error other than io.EOF unless every one of its chunks had been answered successfully; Stat and every transfer started after the loss return, with an error; File.Close, Client.Wait, Client.Close return; the goroutine table is free of pkg/sftp after every round. Non-trivial = fault injected; distinct by (operation, fault, offset, error value, racers, seed, GOMAXPROCS; xfer-loss: transfers, window, answered-before, burst)."
 	workers := runtime.NumCPU()
 	if workers > 16 {
 		workers = 16
@@ -822,10 +843,15 @@ func checkC04(c *lib.Ctx) {
 		if one.Op == c04FloodOp {
 			one.Trials = 5 * max(one.Trials, 1) // the failing interleaving is a schedule: a replay tries harder
 		}
+		if one.Op == c04XferOp {
+			one.Trials, one.BudgetMs = 20*max(one.Trials, 1), 20*one.BudgetMs // (a trial is cheap, the window between two woken workers narrow)
+		}
 		cases = []c04Case{one}
 	} else {
 		// family "flood": what holds at the moment Close returns (c04_atclose.go); first, so that they overlap
 		cases = append(cases, c04GenAtClose(rand.New(rand.NewSource(int64(c.Seed)^0x61746373)), thorough, rkinds)...)
+		// family "xfer-loss": the connection is lost in the middle of concurrent multi-chunk transfers (c04_xferloss.go)
+		cases = append(cases, c04GenXferLoss(rand.New(rand.NewSource(int64(c.Seed)^0x78666c73)), thorough, rkinds, wkinds)...)
 		var dryRaw []json.RawMessage
 		for _, p := range pairs {
 			b, _ := json.Marshal(c04Case{Op: p.op.Name, Fault: "none", Opt: p.variant})
@@ -1126,32 +1152,88 @@ func checkC04(c *lib.Ctx) {
 		}
 	}
 	if fam := os.Getenv("VH_C04_FAMILY"); fam != "" && c.Replay == "" {
-		// debugging aid: only the flood family ("flood") or everything else ("noflood")
+		// debugging aid: only the flood family ("flood"), only the xfer-loss family ("xfer") or everything else ("noflood")
 		var keep []c04Case
 		for _, cs := range cases {
-			if (cs.Op == c04FloodOp) == (fam == "flood") {
+			of := map[string]string{c04FloodOp: "flood", c04XferOp: "xfer"}[cs.Op]
+			if of == "" {
+				of = "noflood"
+			}
+			if of == fam {
 				keep = append(keep, cs)
 			}
 		}
 		cases = keep
+	}
+	if dump := os.Getenv("VH_C04_DUMP"); dump != "" {
+		// debugging aid: the case list of this run, one JSON case per line
+		var b []byte
+		for _, cs := range cases {
+			l, _ := json.Marshal(cs)
+			b = append(append(b, l...), '\n')
+		}
+		os.WriteFile(dump, b, 0o644)
 	}
 	selftest := -1
 	if c.Replay == "" {
 		selftest = len(cases)
 		cases = append(cases, c04Case{Op: "Stat", Fault: "selftest-leak"})
 	}
+	var xferWall time.Duration
 	raws := make([]json.RawMessage, len(cases))
 	for i, cs := range cases {
 		raws[i], _ = json.Marshal(cs)
 	}
 	t0 := time.Now()
-	results, deaths, err := cliRunPoolC("c04", nil, raws, workers, 120*time.Second, nil, func(i int) string { return "c04/" + cases[i].Op })
+	// The xfer-loss cases run in a pass of their own, a few at a time and with nothing else beside them: what they look
+	// for happens when two workers of one transfer really run at the same moment, and a machine whose processors are all
+	// taken (by 16 children of this check) lets that happen ten times less often (measured).  They come last: with a
+	// defect that makes calls hang, the hang budget goes to the other families first, as it always did.
+	results := make([]json.RawMessage, len(cases))
+	deaths := map[int]*cliDeath{}
+	var err error
+	for pass, sel := range []func(cs c04Case) bool{
+		func(cs c04Case) bool { return cs.Op != c04XferOp || c.Replay != "" },
+		func(cs c04Case) bool { return cs.Op == c04XferOp && c.Replay == "" },
+	} {
+		var idx []int
+		var sub []json.RawMessage
+		for i, cs := range cases {
+			if sel(cs) {
+				idx = append(idx, i)
+				sub = append(sub, raws[i])
+			}
+		}
+		if len(idx) == 0 {
+			continue
+		}
+		w := workers
+		if pass == 1 {
+			w = max(1, min(c04XferWorkers, workers))
+		}
+		t1 := time.Now()
+		res, dth, perr := cliRunPoolC("c04", nil, sub, w, 120*time.Second, nil, func(i int) string { return "c04/" + cases[idx[i]].Op })
+		if perr != nil {
+			err = perr
+			break
+		}
+		for j, i := range idx {
+			results[i] = res[j]
+			if d := dth[j]; d != nil {
+				deaths[i] = d
+			}
+		}
+		if pass == 1 {
+			xferWall = time.Since(t1)
+		}
+	}
 	poolWall := time.Since(t0)
 	if err != nil {
 		r.Fail(lib.Failure{Kind: "tie", Key: "child-start", What: err.Error()})
 		return
 	}
 	racerOK, racerErr := 0, 0
+	xferTrials, xferTrialsBy := 0, map[string]int{}
 	var connLines []connLine
 	var connInputs []any
 	connReqs := 0
@@ -1169,7 +1251,24 @@ func checkC04(c *lib.Ctx) {
 			}
 			continue
 		}
-		r.Case(fmt.Sprintf("%s/%s%s@%d/r%d/s%d/e%s%s/p%d/t%d", cliOpKey(cs.Op, cs.Opt), cs.Via, cs.Fault, cs.At, cs.Racers, cs.Seed, cs.Err, cs.Exit, cs.Procs, cs.Tail), cs.Fault != "none")
+		ctext := fmt.Sprintf("%s/%s%s@%d/r%d/s%d/e%s%s/p%d/t%d", cliOpKey(cs.Op, cs.Opt), cs.Via, cs.Fault, cs.At, cs.Racers, cs.Seed, cs.Err, cs.Exit, cs.Procs, cs.Tail)
+		if cs.Op == c04XferOp {
+			ctext += fmt.Sprintf("/%v/q%d/a%d/b%d%s", cs.Xfers, cs.Req, cs.Answer, cs.Burst, cs.BurstKind)
+		}
+		r.Case(ctext, cs.Fault != "none")
+		if cs.Op == c04XferOp {
+			for _, x := range cs.Xfers {
+				r.Hist("xfer-loss/api/" + x.API)
+				r.Hist(fmt.Sprintf("xfer-loss/chunks/%d", x.Chunks))
+			}
+			r.Hist(fmt.Sprintf("xfer-loss/parallel-transfers/%d", len(cs.Xfers)))
+			r.Hist(fmt.Sprintf("xfer-loss/asked-in-flight-per-transfer/%d", cs.At))
+			r.Hist(fmt.Sprintf("xfer-loss/gomaxprocs/%d", cs.Procs))
+			r.Hist("xfer-loss/ended-by/" + cs.Fault)
+			r.Hist(fmt.Sprintf("xfer-loss/max-concurrent-requests/%d", cs.Req))
+			r.Hist(fmt.Sprintf("xfer-loss/answered-before/%d", cs.Answer))
+			r.Hist("xfer-loss/burst/" + map[bool]string{true: "none", false: fmt.Sprintf("%s/%d", cs.BurstKind, cs.Burst)}[cs.Burst == 0])
+		}
 		if cs.Op == c04FloodOp {
 			r.Hist(fmt.Sprintf("at-close-return/calls-in-flight/%d", cs.At))
 			r.Hist(fmt.Sprintf("at-close-return/gomaxprocs/%d", cs.Procs))
@@ -1200,7 +1299,11 @@ func checkC04(c *lib.Ctx) {
 			if d.Site == "" {
 				key = d.Why + "/" + cs.Op
 			}
-			what := fmt.Sprintf("client process died (%s) in %s: %s", d.Why, d.Site, d.Head)
+			opName := cs.Op
+			if cs.Op == c04XferOp {
+				opName = "connection lost with " + c04XferNames(cs) + " in flight (and the transfers started after it)"
+			}
+			what := fmt.Sprintf("%s: call did not return an error: process crashed (%s) in %s: %s", opName, d.Why, d.Site, d.Head)
 			if !d.Confirmed {
 				what += " [schedule dependent: did not die again when re-run alone 3 times]"
 			}
@@ -1254,6 +1357,20 @@ func checkC04(c *lib.Ctx) {
 			}
 		}
 		r.Hist(fmt.Sprintf("in-flight-at-loss/%d", min(res.InFlight, 9)))
+		if cs.Op == c04XferOp {
+			b := "2-7"
+			for _, lim := range []int{8, 16, 32, 64, 128, 256} {
+				if res.InFlight >= lim {
+					b = fmt.Sprintf("%d+", lim)
+				}
+			}
+			if res.InFlight < 2 {
+				b = fmt.Sprint(res.InFlight)
+			}
+			r.Hist("xfer-loss/observed-in-flight-at-loss/" + b)
+			xferTrials += res.Trials
+			xferTrialsBy[cs.Xfers[0].API] += res.Trials
+		}
 		for _, cl := range res.Calls {
 			if !strings.HasPrefix(cl.Name, "after/") {
 				r.Hist("scenario-call/need=" + cl.Need + "/failed=" + fmt.Sprint(cl.Failed))
@@ -1274,6 +1391,9 @@ func checkC04(c *lib.Ctx) {
 			}
 			r.Fail(lib.Failure{Kind: kind, Key: f.Key, What: f.What, Input: cs, Actual: map[string]any{"detail": f.Act, "calls": res.Calls, "trace": res.Trace}})
 		}
+	}
+	if xferTrials > 0 {
+		r.Note("xfer-loss: %d trials (connection lost in the middle of concurrent multi-chunk transfers) fitted into the cases' time allowances (%d cases at a time, nothing else running: %.1fs); by (first) transfer function: %v", xferTrials, c04XferWorkers, xferWall.Seconds(), xferTrialsBy)
 	}
 	r.Note("racing calls observed: %d succeeded (reply delivered before the loss), %d failed", racerOK, racerErr)
 	t1 := time.Now()
